@@ -15,16 +15,23 @@
                                       implementation's answers)
    "parsing the text produced by Json::toString yields an equal tree" (null, booleans, 32/64-bit
     integers, NUL-free strings, lists, string-keyed maps)
-        -> parse_toString_roundtrip, parse_toString_equal_tree, parse_toString_identical_when_canonical
+        -> parse_toString_equal_tree (the clause as the text says it: an EQUAL tree - integers by value, as
+           Variant::operator== compares them; a JSON text carries no width, and the code itself returns intType
+           for int64 5: ex_int64_small), equal_tree_is_identity_up_to_integer_width (value_eq v w iff the trees
+           with the width of their integers wiped out are identical - the comparison the check makes between the
+           implementation's tree and canon v), parse_toString_roundtrip (the precise statement about the MODEL:
+           the tree read back is canon v), parse_toString_identical_when_canonical
            layers: unescape_escape_inverse, atoll_printf_inverse
    "Json::stripComments removes exactly the // and /* */ comments outside string literals and leaves
     every other byte and every line break unchanged"
         -> stripComments_is_reference (+ stripComments_keeps_every_line_break,
                                          stripComments_identity_without_slash); the text of a String is
            what precedes its first 0 byte (cstr), as for the code which reads the String as a C string
-        -> stripComments_follows_comment_grammar (the same said as a grammar: a text cut into plain bytes,
-           string literals, line comments up to the line break, block comments - JsonSpec.strips - is
-           stripped piece by piece; soundness only: that every text has such a cut is not proved)
+        -> stripComments_is_the_comment_grammar (the same said as a grammar: a text cut into plain bytes,
+           string literals, line comments up to the line break, block comments - JsonSpec.strips; o is the
+           text without its comments IFF stripComments returns o), from stripComments_follows_comment_grammar
+           (soundness), comment_grammar_cuts_every_text (completeness: every text has a cut, unterminated
+           literals and comments included) and comment_grammar_is_deterministic
         -> stripComments_memory_safe, stripComments_never_longer (the raw `*(dest++)` writes into
            `String result(data.length())` and the reads src[1] / end[1] stay inside their buffers)
 
@@ -34,7 +41,9 @@
            parser_error_fields, static_parse_is_parse; parse_without_clear_keeps_target_content records
            what the code did before repair 06 (`result.clear()`)
 
-   Beyond the property text (the tokenizer layer: escapes, \u, surrogate pairs -> UTF-8):
+   Beyond the property text (the tokenizer layer: escapes, \u, surrogate pairs -> UTF-8; statements about the
+   model only - the check does not claim a failing input when the implementation decodes a literal that
+   toString never writes differently):
         -> string_token_is_rfc8259, parse_string_literal_rfc8259, unicode_append_is_rfc3629,
            parse_value_fuel_from_any_state
 
@@ -56,7 +65,7 @@
    sscanf("%x") = scanf_hex (white space, sign, 0x prefix, digit run), strpbrk = find_one_of.  Doubles
    are outside the property (kept as opaque text).  *)
 From Coq Require Import ZArith List Bool.
-From Json Require Import JsonSpec JsonModel JsonProofsBase JsonProofsHex JsonProofsTotal JsonProofsStrip JsonProofsRound JsonProofsRfc JsonProofsReuse.
+From Json Require Import JsonSpec JsonModel JsonProofsBase JsonProofsHex JsonProofsTotal JsonProofsStrip JsonProofsGrammar JsonProofsRound JsonProofsEq JsonProofsRfc JsonProofsReuse.
 Import ListNotations.
 Local Open Scope Z_scope.
 
@@ -112,6 +121,13 @@ Theorem parse_toString_equal_tree :
   forall v, in_class v = true -> exists v', parse (to_string v) = POk v' /\ value_eq v v' = true.
 Proof. exact parse_to_string_eq. Qed.
 Print Assumptions parse_toString_equal_tree.
+
+(* "equal": two trees are equal iff they are identical once the width and signedness of every integer is
+   wiped out; the tree w the implementation reads back is judged by  blind (canon v) = blind w *)
+Theorem equal_tree_is_identity_up_to_integer_width :
+  forall v w, (value_eq v w = true <-> blind v = blind w) /\ (value_eq v w = true <-> blind (canon v) = blind w).
+Proof. exact (fun v w => conj (value_eq_iff_blind v w) (equal_tree_iff_blind_canon v w)). Qed.
+Print Assumptions equal_tree_is_identity_up_to_integer_width.
 
 Theorem parse_toString_identical_when_canonical :
   forall v, canonical v = true -> canon v = v.
@@ -255,6 +271,19 @@ Theorem stripComments_follows_comment_grammar : forall s o : list Z, strips (cst
 Proof. exact strip_comments_follows_grammar. Qed.
 Print Assumptions stripComments_follows_comment_grammar.
 
+(* completeness of the grammar: every text has a cut, and what the cut leaves is the reference machine's answer *)
+Theorem comment_grammar_cuts_every_text : forall s : list Z, strips s (reference_strip s).
+Proof. exact strips_complete. Qed.
+Print Assumptions comment_grammar_cuts_every_text.
+
+Theorem comment_grammar_is_deterministic : forall s o1 o2 : list Z, strips s o1 -> strips s o2 -> o1 = o2.
+Proof. exact strips_deterministic. Qed.
+Print Assumptions comment_grammar_is_deterministic.
+
+Theorem stripComments_is_the_comment_grammar : forall s o : list Z, strips (cstr s) o <-> strip_comments s = o.
+Proof. exact strip_comments_iff_grammar. Qed.
+Print Assumptions stripComments_is_the_comment_grammar.
+
 Theorem stripComments_memory_safe : forall s : list Z, strip_comments_chk s = Ok (strip_comments s).
 Proof. exact strip_comments_chk_ok. Qed.
 Print Assumptions stripComments_memory_safe.
@@ -372,3 +401,21 @@ Proof.
   apply st_plain; [discriminate|discriminate|].
   apply st_plain; [discriminate|discriminate|]. apply st_nil.
 Qed.
+
+(* completeness at work on texts that end inside a literal / inside a block comment / right behind a slash,
+   and on a line comment that a lone CR ends *)
+Example ex_grammar_open_pieces :
+  strips [34; 97; 92] [34; 97; 92] /\ strips [47; 42; 120; 10; 42] [10] /\ strips [97; 47] [97; 47]
+  /\ strips [47; 47; 120; 13; 121] [13; 121].
+Proof.
+  exact (conj (comment_grammar_cuts_every_text [34; 97; 92]) (conj (comment_grammar_cuts_every_text [47; 42; 120; 10; 42])
+        (conj (comment_grammar_cuts_every_text [97; 47]) (comment_grammar_cuts_every_text [47; 47; 120; 13; 121])))).
+Qed.
+
+(* 2147483647 read back as a 64-bit integer is an equal tree; read back as the string "2147483647" it is not
+   (although Variant::operator== would convert) *)
+Example ex_equal_up_to_width :
+  blind (canon (JList [JInt 2147483647])) = blind (JList [JInt64 2147483647])
+  /\ value_eq (JList [JInt 2147483647]) (JList [JInt64 2147483647]) = true
+  /\ blind (canon (JInt 5)) <> blind (JString [53]).
+Proof. split; [reflexivity|]. split; [reflexivity|discriminate]. Qed.
